@@ -15,6 +15,15 @@ HOW = {
     "C16-m3": "after adding zero-valued model parameters", "C18-m3": "after adding two resonances of the same name",
     "C18-m4": "after adding an event type with two different repeated species", "C19-m3": "after adding the A - B - A conversion sequence",
     "C19-m4": "after adding a floating parameter with error exactly 0",
+    "C04-m3": "after asking the same name under the other naming first (session state inside the body); at first the worker died in my set-up code "
+              "(it called lru_cache.cache_clear, which the change removes) and was counted as inconclusive - a dead worker is now a harness error",
+    "C08-m4": "first by C03; by C08 after adding the differential against the file with the copy written out",
+    "C04-m4": "after adding metadata given as None", "C07-m3": "after an earlier file of the session aliasing the same names differently",
+    "C10-m4": "after adding an earlier parser of the same session with other tables for the same names",
+    "C11-m4": "after adding in-place edits of a final state that has already been inspected",
+    "C14-m3": "after adding anonymous extra fields ({} and {!r}) to the invalid patterns",
+    "C15-m3": "after checking that every edge starts from a PORT that exists (the tree comparison alone did not look at PORT attributes)",
+    "C15-m4": "after giving some lines a branching fraction of exactly zero",
 }
 rows = []
 for d in sorted(glob.glob("/verif/seeded/C*/")):
@@ -37,7 +46,8 @@ out = ["Seeds: `-mN` written by independent sub-agents that saw only the propert
        "`tools/verify_seed.sh`: demo passes on the clean tree, fails with the patch, 282 tests still pass); `-aN` written by me from the changes",
        "the property texts report as surviving the suite; `-prefixFn` the reverse of my own fix commits. Every row was produced by",
        "`tools/seed_matrix.sh` (quick tier, scratch copy of /repo). *how* says whether the check caught the change as it stood when the change",
-       "arrived (\"first\") or what had to be added after a miss - 39 of the 60 sub-agent changes were caught at first try.", "",
+       "arrived (\"first\") or what had to be added after a miss - 52 of the 76 sub-agent changes were caught at first try; the misses are the reason for the session-history
+dimension, the boundary values (zero, None, empty) and the symbolic-value harnesses.", "",
        "| seed | origin | change | caught by (first obligation that fails) | how |", "|---|---|---|---|---|"]
 for r in rows:
     out.append("| " + " | ".join(r) + " |")
